@@ -370,13 +370,14 @@ func New(opts Options) (*Net, error) {
 	if !reopen {
 		// the prime's init() goroutine pushes the genesis pending header down
 		// once the sub interfaces are set; wait for the zone to have one
-		deadline := time.Now().Add(30 * time.Second)
+		deadline := time.Now().Add(180 * time.Second) // watchdog only (loaded machines)
 		for {
-			if ph := n.Zone().Core.Slice().ReadBestPh(); ph != nil {
+			// (each level stores its own genesis pending header after handing it down: wait for all three)
+			if n.Zone().Core.Slice().ReadBestPh() != nil && n.Nodes[1].Core.Slice().ReadBestPh() != nil && n.Nodes[0].Core.Slice().ReadBestPh() != nil {
 				break
 			}
 			if time.Now().After(deadline) {
-				return nil, errors.New("zone never received a genesis pending header")
+				return nil, errors.New("the hierarchy never received its genesis pending headers")
 			}
 			time.Sleep(5 * time.Millisecond)
 		}
